@@ -27,6 +27,7 @@ type PropertySpec struct {
 	Bounded    []string          `json:"bounded"`   // bounded stand-ins (thorough tier)
 	Assumed    []string          `json:"assumed"`   // assumed contracts the property relies on
 	Residue    string            `json:"residue"`
+	NeedsEmitted bool            `json:"needs_emitted"`
 }
 
 type KnownFinding struct {
@@ -280,6 +281,9 @@ func (run *checkRun) execute(verbose bool) int {
 }
 
 func needsEmitted(spec *PropertySpec) bool {
+	if spec.NeedsEmitted {
+		return true
+	}
 	for _, s := range spec.Structural {
 		if strings.HasPrefix(s, "emitted.") {
 			return true
